@@ -136,6 +136,44 @@ func probeCall(e *Env, call *ssa.Call) (subject ssa.Value, asserted types.Type, 
 	return call.Call.Args[0], asserted, true
 }
 
+// probeAnswer: cond is the answer of an interface probe and nothing else: the ok of a comma-ok assertion, a probing
+// helper's result, or castToFunc's result compared with nil — possibly negated.
+func probeAnswer(e *Env, cond ssa.Value) bool {
+	for i := 0; i < 3; i++ {
+		if u, ok := cond.(*ssa.UnOp); ok && u.Op == token.NOT {
+			cond = u.X
+			continue
+		}
+		break
+	}
+	switch x := cond.(type) {
+	case *ssa.Extract:
+		ta, ok := x.Tuple.(*ssa.TypeAssert)
+		return ok && ta.CommaOk && x.Index == 1
+	case *ssa.Call:
+		_, _, ok := probeCall(e, x)
+		return ok
+	case *ssa.BinOp:
+		if (x.Op == token.EQL || x.Op == token.NEQ) && flow.IsNilConst(x.Y) {
+			if c, ok := x.X.(*ssa.Call); ok {
+				if f := c.Call.StaticCallee(); f != nil && flow.Origin(f).Name() == "castToFunc" {
+					return true
+				}
+			}
+			if ph, ok := x.X.(*ssa.Phi); ok { // f assigned in the condition: `if f = castToFunc(…); f == nil`
+				for _, ed := range ph.Edges {
+					if c, ok := ed.(*ssa.Call); ok {
+						if f := c.Call.StaticCallee(); f != nil && flow.Origin(f).Name() == "castToFunc" {
+							return true
+						}
+					}
+				}
+			}
+		}
+	}
+	return false
+}
+
 // fieldLoadUnconverted: v is the field itself (boxed into an interface at most), not a conversion of it. The
 // expectation must enter the comparison in its own type: converting it (string → []byte) instead of the produced
 // data changes what testify calls equal (an empty expectation no longer equals a nil result).
@@ -255,9 +293,15 @@ func hasRecoverDefer(fn *ssa.Function) bool {
 			}
 			cl := mc.Fn.(*ssa.Function)
 			rec := false
+			repanics := false
 			var target ssa.Value // the captured variable the recovered error is stored into
 			for _, cb := range cl.Blocks {
 				for _, cin := range cb.Instrs {
+					// the closure must not raise what it has just recovered (`if re, ok := r.(runtime.Error); ok { panic(re) }`),
+					// and the store of the recovered error must not be conditional
+					if _, isPanic := cin.(*ssa.Panic); isPanic {
+						repanics = true
+					}
 					if call, ok := cin.(*ssa.Call); ok {
 						if bi, ok := call.Call.Value.(*ssa.Builtin); ok && bi.Name() == "recover" {
 							rec = true
@@ -274,7 +318,23 @@ func hasRecoverDefer(fn *ssa.Function) bool {
 					}
 				}
 			}
-			if !rec || target == nil {
+			// a branch inside the closure may only ask whether there was a panic at all (`r != nil`)
+			for _, cb := range cl.Blocks {
+				if iff, ok := cb.Instrs[len(cb.Instrs)-1].(*ssa.If); ok {
+					okCond := false
+					if bo, ok := iff.Cond.(*ssa.BinOp); ok && (bo.Op == token.EQL || bo.Op == token.NEQ) && flow.IsNilConst(bo.Y) {
+						if rc, ok := bo.X.(*ssa.Call); ok {
+							if bi, ok := rc.Call.Value.(*ssa.Builtin); ok && bi.Name() == "recover" {
+								okCond = true
+							}
+						}
+					}
+					if !okCond {
+						repanics = true
+					}
+				}
+			}
+			if !rec || target == nil || repanics {
 				continue
 			}
 			// the variable must be the function's named error result: after a recovered panic the function returns
@@ -504,6 +564,17 @@ func ruleC20Helper(e *Env, h helperSpec) {
 					why = "the missing-interface failure is not reported on the helper's t"
 					continue
 				}
+				// the failure is decided by the probe alone: the failing block is entered from one test, and that test is
+				// the probe's answer (`!ok`, `f == nil`) — `!ok && i == 0` lets every later case through untested
+				if len(b.Preds) != 1 {
+					why = "the missing-interface failure is entered from more than one place"
+					continue
+				}
+				piff, isIf := b.Preds[0].Instrs[len(b.Preds[0].Instrs)-1].(*ssa.If)
+				if !isIf || !probeAnswer(e, piff.Cond) {
+					why = "whether the missing interface is reported depends on something other than the interface test (a case index, a flag): an applicable case whose value lacks the interface reaches the unchecked conversion"
+					continue
+				}
 				okIface = true
 			}
 		}
@@ -708,6 +779,53 @@ func ruleC20Helper(e *Env, h helperSpec) {
 			}
 			for _, a := range safe.Call.Args {
 				walk(a, 0)
+			}
+			// … and so is what the verdict compares with: every read of the case's Data, Value or Error other than the
+			// interface probe happens after the Before hook (a copy taken in front of it is the case before the hook)
+			for _, b := range fn.Blocks {
+				for _, in := range b.Instrs {
+					u, ok := in.(*ssa.UnOp)
+					if !ok || stale != nil || !(fieldLoad(u, "Data") || fieldLoad(u, "Value") || fieldLoad(u, "Error")) {
+						continue
+					}
+					probeOnly := true
+					for _, r := range *u.Referrers() {
+						switch x := r.(type) {
+						case *ssa.DebugRef:
+						case *ssa.MakeInterface, *ssa.ChangeType, *ssa.ChangeInterface:
+							for _, r2 := range *x.(ssa.Value).Referrers() {
+								switch y := r2.(type) {
+								case *ssa.TypeAssert:
+									if !y.CommaOk {
+										probeOnly = false
+									}
+								case *ssa.Call:
+									if _, _, isProbe := probeCall(e, y); !isProbe {
+										probeOnly = false
+									}
+								case *ssa.DebugRef:
+								default:
+									probeOnly = false
+								}
+							}
+						case *ssa.Call:
+							if f := x.Call.StaticCallee(); f == nil || flow.Origin(f).Name() != "castToFunc" {
+								probeOnly = false
+							}
+						default:
+							probeOnly = false
+						}
+					}
+					// the value named in the missing-interface message belongs to the probe
+					for _, bin := range b.Instrs {
+						if fc, ok := bin.(*ssa.Call); ok && strings.HasPrefix(calleeName(&fc.Call), "github.com/stretchr/testify/assert.FailNow") {
+							probeOnly = true
+						}
+					}
+					if !probeOnly && !precedes(before, u) {
+						stale = u
+					}
+				}
 			}
 		}
 		switch {
@@ -1294,16 +1412,38 @@ func failedAssertDominates(cl *ssa.Function, b *ssa.BasicBlock) bool {
 	return false
 }
 
+// passedAssertDominates: block b is only reachable through the true edge of an assertion on t.
+func passedAssertDominates(cl *ssa.Function, b *ssa.BasicBlock) bool {
+	for _, d := range cl.Blocks {
+		if !d.Dominates(b) {
+			continue
+		}
+		iff, ok := d.Instrs[len(d.Instrs)-1].(*ssa.If)
+		if !ok || isAssertOnT(cl, iff.Cond) == nil {
+			continue
+		}
+		if then := d.Succs[0]; len(then.Preds) == 1 && (then == b || then.Dominates(b)) && d.Succs[1] != then {
+			return true
+		}
+	}
+	return false
+}
+
 // predReports: every return of the predicate closure that may be false is either the result of an assertion on t
 // (which reports exactly when it is false) or lies behind a failed assertion.
 func predReports(e *Env, rule, site string, cl *ssa.Function) {
-	var bad []string
+	var bad, unmet []string
 	n := 0
 	var check func(v ssa.Value, at *ssa.BasicBlock, pos string, depth int)
 	check = func(v ssa.Value, at *ssa.BasicBlock, pos string, depth int) {
 		switch x := v.(type) {
 		case *ssa.Const:
 			if x.Value != nil && x.Value.String() == "true" {
+				// "met" may be answered outright only where an assertion on t has held (the error is there and is the
+				// expected one): a bare `return true` in front of every examination accepts a missing error
+				if !passedAssertDominates(cl, at) {
+					unmet = append(unmet, pos)
+				}
 				return
 			}
 			if !failedAssertDominates(cl, at) {
@@ -1350,6 +1490,11 @@ func predReports(e *Env, rule, site string, cl *ssa.Function) {
 		e.S.Bad(rule, site, "reports", "the predicate can answer false without any assertion on t having failed, so an unmet predicate is not reported: return at "+strings.Join(bad, ", "), e.Pos(cl), "")
 	default:
 		e.S.Ok(rule, site, "reports", fmt.Sprintf("%d returns: each is an assertion's own result, a constant true, or lies behind a failed assertion on t", n), e.Pos(cl))
+	}
+	if len(unmet) > 0 {
+		e.S.Bad(rule, site, "met", "the predicate can answer true without any assertion on t having held: an error that is missing, or not the expected one, is accepted: return at "+strings.Join(unmet, ", "), e.Pos(cl), "a marshaler returning no error")
+	} else if n > 0 {
+		e.S.Ok(rule, site, "met", "true is answered only by an assertion's own result or behind an assertion that held", e.Pos(cl))
 	}
 }
 
